@@ -2,6 +2,7 @@ import Babble.Proofs.HGOrder
 import Babble.Proofs.HGFame
 import Babble.Proofs.HGBlocks
 import Babble.Proofs.DagVote
+import Babble.Proofs.HGRoundMono
 /-! # C03 — consensus output is a function of the event DAG only
     Proved here: the deterministic ingredients that make the output independent of process-local
     state, and — for a static validator set, on the declarative model `Babble.Dag` that the
@@ -91,5 +92,17 @@ theorem fame_decisions_are_final (s : Babble.HG.St) (es : List Babble.HG.Ev) (r 
     (x : String) (f : Babble.HG.Fame) (hg : s.getRound r = some ri) (hd : Babble.HG.Decd ri x f) :
     ∃ ri', (Babble.HG.runAll s es).getRound r = some ri' ∧ Babble.HG.Decd ri' x f :=
   Babble.HG.fame_final s es r ri x f hg hd
+
+/-- **rounds never decrease along the parent edges** (operational model, any validator-set
+    behaviour): in every state a node started from genesis reaches through insertion attempts of
+    fresh events, every stored event has a round, the parents it names are stored, and their rounds
+    are at most its own — the shape the declarative model's `round` has by construction -/
+theorem rounds_never_decrease_along_parents (g : List Nat) (es : List HG.Ev) (hnd : (es.map (·.id)).Nodup)
+    (hfresh : ∀ e ∈ es, e.id ≠ "" ∧ e.round = none ∧ e.rr = none) (x : String) (e : HG.Ev)
+    (hx : (HG.runAll (HG.St.init g) es).get x = some e) :
+    ∃ r, e.round = some r ∧
+      (e.sp ≠ "" → ∃ p rp, (HG.runAll (HG.St.init g) es).get e.sp = some p ∧ p.round = some rp ∧ rp ≤ r) ∧
+      (e.op ≠ "" → ∃ p rp, (HG.runAll (HG.St.init g) es).get e.op = some p ∧ p.round = some rp ∧ rp ≤ r) :=
+  HG.round_parents g es hnd hfresh x e hx
 
 end Babble.Props.C03
